@@ -161,11 +161,17 @@ func c27SmallStep(f []string) string {
 			return "bad-op"
 		}
 		return Hex(replication.VerifAppendBytes(nil, UnHex(f[1])))
+	case "xb":
+		if len(f) != 2 {
+			return "bad-op"
+		}
+		return c27XB(UnHex(f[1]))
 	}
 	return "bad-op"
 }
 
 func genC27Small(g *Gen) {
+	genC27Exchange(g)
 	n := g.N / 2
 	if n < 200 {
 		n = 200
